@@ -39,8 +39,11 @@ def contract_modules():
 
 
 # bounded stand-ins per property (pyvc/bounded.py); C19 is decided by its bounded item alone
-BOUNDED = {'C19': ['rays'], 'C06': ['occlusion', 'rays'], 'C12': ['dijkstra'], 'C01': ['dijkstra'],
-           'C15': ['representations'], 'C16': ['representations']}
+BOUNDED = {'C19': ['rays'], 'C06': ['occlusion', 'rays'], 'C12': ['dijkstra', 'trajectories'],
+           'C01': ['dijkstra', 'trajectories'], 'C02': ['trajectories'], 'C04': ['trajectories'], 'C08': ['trajectories'],
+           'C09': ['trajectories'], 'C10': ['trajectories'], 'C20': ['trajectories'],
+           'C15': ['representations', 'trajectories'], 'C16': ['representations']}
+_BOUNDED_CACHE = {}
 
 # properties whose deciding part is a bounded enumeration (a few helper lemmas are proved on the side)
 EXPLORATION_LEVEL = {'C15', 'C16', 'C19'}
@@ -96,6 +99,13 @@ def list_contracts(repo):
 
 
 def run_bounded(item, tier, seed):
+    key = (item, tier, seed)
+    if key not in _BOUNDED_CACHE:
+        _BOUNDED_CACHE[key] = _run_bounded(item, tier, seed)
+    return _BOUNDED_CACHE[key]
+
+
+def _run_bounded(item, tier, seed):
     env = dict(os.environ)
     env['PYVC_REPO'] = REPO
     env.pop('PYTHONPATH', None)
